@@ -104,7 +104,7 @@ class AbortCase(Case):
                                              extra={"optimizer": {"method": "symstub/x"}})
         # how many events / calls the aborting party sees in an undisturbed run (bound of the abort index)
         per_step = 2 + 2 * nevals
-        steps = {"single": 1, "two-steps": 2, "evaluator": 1, "nested-inner": 1, "nested-outer": 1, "nested3": 1, "nested-reparented": 1}[shape]
+        steps = {"single": 1, "two-steps": 2, "evaluator": 1, "nested-inner": 1, "nested-outer": 1, "nested3": 1, "nested-reparented": 1, "nested-own-context": 1}[shape]
         if shape == "evaluator":
             self.nmax = 4 if who != "evaluator" else 1
         elif shape.startswith("nested"):
@@ -192,7 +192,14 @@ class AbortCase(Case):
                     from ropt.plan import Plan
                     ctor_parent = Plan(plan.optimizer_context)
                     ctor_parent.add_handler("verifrec/rec", recorder=rec, label="ho")
-                inner, _ = make_plan(ev, rec, parent=ctor_parent, handler_names=("hi",))
+                if self.shape == "nested-own-context":
+                    # the inner plan lives on its own context (the only way to give it another evaluator); its events
+                    # still travel up the plan chain and end at the observers of the running (outermost) plan
+                    from ropt.plan import OptimizerContext, Plan
+                    inner = Plan(OptimizerContext(evaluator=ev, plugin_manager=plan.optimizer_context.plugin_manager), parent=plan)
+                    inner.add_handler("verifrec/rec", recorder=rec, label="hi")
+                else:
+                    inner, _ = make_plan(ev, rec, parent=ctor_parent, handler_names=("hi",))
                 inner_plans.append(inner)
                 tracker = inner.add_handler("tracker")
                 inner_step = inner.add_step("optimizer")
@@ -345,6 +352,7 @@ def build_cases(tier):
         add(shape="nested-inner" if who in ("inner-handler",) else "nested-outer", who=who)
     for who in ("observer", "handler"):
         add(shape="nested-reparented", who=who)   # the nested plan was created under another plan
+    add(shape="nested-own-context", who="observer")   # the nested plan has its own OptimizerContext
     add(BasicOptimizerCase)
     if tier == "thorough":
         for who in ("observer", "handler", "evaluator"):
